@@ -7,6 +7,7 @@
      - the `/../` loop is index based and fuelled exactly like the `while(true)` of the code;
      - std::snprintf is represented by its contract on the full expansion F (trusted, DESIGN section 3). *)
 From Coq Require Import List Arith Bool Ascii.
+From Coq Require String.
 From DuneV Require Import Params_gen.
 Import ListNotations.
 Local Open Scope char_scope.
@@ -238,4 +239,42 @@ Definition c18_relativePath (newbase p : c18_str) : c18_res :=
     | C18_OutOfFuel, _ => C18_OutOfFuel
     | _, C18_OutOfFuel => C18_OutOfFuel
     | _, _ => C18_NotImplemented
+    end.
+
+(* ---------------------------------------------------------------- the thrown messages (DUNE_THROW streams)
+   The literal texts are re-read from path.cc / stringutility.hh into Params_gen.v on every run. *)
+Definition c18_lit (s : String.string) : c18_str := String.list_ascii_of_string s.
+
+(* "relativePath: paths must be either both relative or both absolute: newbase=\"" << newbase << "\" p=\"" << p << "\"" *)
+Definition c18_msg_abs (newbase p : c18_str) : c18_str :=
+  c18_lit c18_param_msg_abs_pre ++ newbase ++ c18_lit c18_param_msg_abs_mid ++ p ++ c18_lit c18_param_msg_abs_post.
+(* "relativePath: newbase has too many leading \"..\" components: newbase=\"" << newbase << "\" p=\"" << p << "\"" *)
+Definition c18_msg_up (newbase p : c18_str) : c18_str :=
+  c18_lit c18_param_msg_up_pre ++ newbase ++ c18_lit c18_param_msg_up_mid ++ p ++ c18_lit c18_param_msg_up_post.
+Definition c18_msg_format : c18_str := c18_lit c18_param_msg_format.
+
+Inductive c18_res2 :=
+| C18_Result (s : c18_str)
+| C18_Throw (msg : c18_str)          (* Dune::NotImplemented with this message text *)
+| C18_Fuel.
+
+(* relativePath(newbase, p) again, now with the exception payload (same statements as c18_relativePath) *)
+Definition c18_relativePath_msg (newbase p : c18_str) : c18_res2 :=
+  let absbase := c18_hasPrefix newbase ["/"] in
+  let absp := c18_hasPrefix p ["/"] in
+  if negb (Bool.eqb absbase absp) then C18_Throw (c18_msg_abs newbase p)
+  else
+    match c18_processPath newbase, c18_processPath p with
+    | C18_Ok mybase, C18_Ok myp =>
+        let preflen := c18_common_len mybase myp in
+        let preflen := c18_backup myp preflen in
+        let mybase := skipn preflen mybase in
+        let myp := skipn preflen myp in
+        if c18_hasPrefix mybase ["."; "."; "/"] then C18_Throw (c18_msg_up newbase p)
+        else
+          let count := c18_count_slash mybase in
+          C18_Result (c18_ups count ++ myp)
+    | C18_OutOfFuel, _ => C18_Fuel
+    | _, C18_OutOfFuel => C18_Fuel
+    | _, _ => C18_Throw []
     end.
